@@ -437,7 +437,10 @@ impl OutputFormat for IcyDraw {
                                         let (_, [layer_num, _chunk]) = m.extract();
                                         let layer_num = layer_num.parse::<usize>()?;
 
-                                        let layer = &mut result.layers[layer_num];
+                                        // a continuation record needs the layer its first record created
+                                        let Some(layer) = result.layers.get_mut(layer_num) else {
+                                            return Err(LoadingError::OutOfBounds.into());
+                                        };
                                         match layer.role {
                                             crate::Role::Normal => {
                                                 let mut o = 0;
@@ -447,6 +450,9 @@ impl OutputFormat for IcyDraw {
                                                         break;
                                                     }
                                                     for x in 0..layer.get_width() {
+                                                        if o + 2 > bytes.len() {
+                                                            return Err(LoadingError::FileTooShort.into());
+                                                        }
                                                         let mut attr = u16::from_le_bytes(bytes[o..(o + 2)].try_into().unwrap());
                                                         o += 2;
                                                         if attr == crate::attribute::INVISIBLE_SHORT {
@@ -465,6 +471,9 @@ impl OutputFormat for IcyDraw {
                                                         }
 
                                                         let (ch, fg, bg, font_page) = if is_short {
+                                                            if o + 4 > bytes.len() {
+                                                                return Err(LoadingError::FileTooShort.into());
+                                                            }
                                                             let ch = bytes[o] as u32;
                                                             o += 1;
                                                             let fg = bytes[o] as u32;
@@ -475,6 +484,9 @@ impl OutputFormat for IcyDraw {
                                                             o += 1;
                                                             (ch, fg, bg, font_page)
                                                         } else {
+                                                            if o + 14 > bytes.len() {
+                                                                return Err(LoadingError::FileTooShort.into());
+                                                            }
                                                             let ch = u32::from_le_bytes(bytes[o..(o + 4)].try_into().unwrap());
                                                             o += 4;
                                                             let fg = u32::from_le_bytes(bytes[o..(o + 4)].try_into().unwrap());
